@@ -95,6 +95,15 @@ func dependsOn(v ssa.Value, p func(ssa.Value) bool) bool {
 		if p(x) {
 			return true
 		}
+		if u, ok := x.(*ssa.UnOp); ok && u.Op == token.MUL {
+			if a, ok := u.X.(*ssa.Alloc); ok {
+				for _, r := range *a.Referrers() {
+					if st, ok := r.(*ssa.Store); ok && st.Addr == a && walk(st.Val, d+1) {
+						return true
+					}
+				}
+			}
+		}
 		if in, ok := x.(ssa.Instruction); ok {
 			for _, op := range in.Operands(nil) {
 				if *op != nil && walk(*op, d+1) {
